@@ -119,7 +119,7 @@ Theorem C11_constructors_establish_derivable : forall O t s o u f,
 Proof. exact ufvk_from_checked_parts_derivable. Qed.
 
 Theorem C11_decoded_usk_derivable : forall O b k,
-  usk_from_bytes O b = Ok k -> ufvk_derivable O (usk_to_ufvk O k).
+  sk_coherent O -> usk_from_bytes O b = Ok k -> ufvk_derivable O (usk_to_ufvk O k).
 Proof. exact usk_from_bytes_derivable. Qed.
 
 Theorem C11_decoded_ufvk_derivable : forall O c k, ufvk_parse O c = Ok k -> ufvk_derivable O k.
@@ -206,7 +206,7 @@ Theorem C11_ufvk_roundtrip_addresses : forall O net k,
 Proof. exact ufvk_roundtrip_addresses. Qed.
 
 Theorem C11_usk_roundtrip_addresses : forall O k,
-  usk_wf O k ->
+  sk_coherent O -> usk_wf O k ->
   exists k', usk_from_bytes O (usk_to_bytes k) = Ok k' /\ usk_to_bytes k' = usk_to_bytes k
     /\ forall j r, usk_address O k' j r = usk_address O k j r /\ usk_address O k j r <> Panic.
 Proof. exact usk_roundtrip_addresses. Qed.
@@ -434,7 +434,7 @@ Definition demo_oracles : oracles :=
   mkOracles (fun b => b) (fun b => b) (fun b => b) (fun b => b) (fun b => b) (fun b => Some b)
             (fun k j => j :: k) (fun k j => if N.even j then Some (j :: k) else None)
             (fun k j => Some (j :: k))
-            OSome OSome OSome OSome OSome OSome OSome OSome OSome.
+            OSome OSome OSome OSome OSome OSome OSome OSome OSome (fun b => Some b).
 
 Definition demo_uivk : uivk := mkUivk (Some [1]) (Some [2]) (Some [3]) [].
 
